@@ -618,9 +618,10 @@ func c28Requests(n int, v int16) []c28Req {
 	return reqs
 }
 
-// c28Templates: topic alphabet, simplest first. uniform=true keeps only partition lists whose
-// partitions are all of one kind.
-func c28Templates(maxParts int, uniform bool) []c28Topic {
+// c28Templates: topic alphabet, simplest first. Partition lists of length <= mixedUpTo take
+// every combination of partition kinds; longer lists (up to maxParts) are uniform (all
+// partitions of one kind).
+func c28Templates(maxParts, mixedUpTo int) []c28Topic {
 	kinds := []c28Part{{Err: 0, Epoch: 0}, {Err: 0, Epoch: 7}, {Err: 5, Epoch: -1}}
 	var lists [][]c28Part
 	lists = append(lists, nil)
@@ -631,7 +632,7 @@ func c28Templates(maxParts int, uniform bool) []c28Topic {
 			return
 		}
 		for _, k := range kinds {
-			if uniform && len(cur) > 0 && cur[0] != k {
+			if n > mixedUpTo && len(cur) > 0 && cur[0] != k {
 				continue
 			}
 			rec(append(cur, k), n)
@@ -671,13 +672,13 @@ func TestVerifC28(t *testing.T) {
 	rep.SetInfo("brokers", "0..3")
 	rep.SetInfo("topics", "0..3")
 	rep.SetInfo("partitions_per_topic", "0..3")
-	full := c28Templates(3, false)
-	third := full
-	if !thorough {
-		third = c28Templates(3, true)
-		rep.SetInfo("quick_restriction", "with 3 topics every topic's partitions are all of one kind (24 of 84 templates); 0-2 topics use all 84 templates")
+	full := c28Templates(3, 3)
+	third := c28Templates(3, 0)
+	if thorough {
+		third = c28Templates(3, 2)
 	}
 	rep.SetInfo("topic_templates", len(full))
+	rep.SetInfo("topic_templates_when_3_topics", fmt.Sprintf("%d (partition lists longer than %d are uniform: all partitions of one kind); 0-2 topics use all %d", len(third), map[bool]int{false: 0, true: 2}[thorough], len(full)))
 
 	var replay c28Case
 	if ok, err := vh.LoadReplay(&replay); ok {
